@@ -113,6 +113,7 @@ class Interp(Engine):
         return v
 
     def covers_path(self):
+        self.drain()
         s = z3.Solver()
         s.set("timeout", 1500)
         s.add(*self.run.pc)
@@ -1114,8 +1115,20 @@ class Interp(Engine):
 
     def call_repo(self, fn, args, kwargs, node, f):
         key = "%s:%s" % (fn.__module__, fn.__qualname__)
-        c = self.contracts.get(key)
-        if c is not None and not c.inline and not (c is self.current and False):
+        c = None
+        cands = self.contracts.get(key) or []
+        if not isinstance(cands, (list, tuple)):
+            cands = [cands]
+        if cands:
+            fs0 = extract.find_function(fn.__module__, fn.__qualname__)
+            vals0 = self.bind_args(fs0.node.args, list(fn.__defaults__ or ()), dict(fn.__kwdefaults__ or {}), args, kwargs, node, fn.__name__)
+            for cand in cands:
+                if cand.when is None or call_by_names(cand.when, vals0):
+                    c = cand
+                    break
+            if c is None:
+                raise Unsupported("no contract of %s applies to this call" % key)
+        if c is not None and not c.inline:
             return self.call_by_contract(c, fn, args, kwargs, node, f)
         cur = self.current
         if cur is not None and (fn.__name__ in cur.opaque or key in cur.opaque):
